@@ -198,7 +198,9 @@ class Impl:
         from pydrobert.speech.pre import Dither, PreProcessor
         from pydrobert.speech.util import read_signal
         from pydrobert.kaldi.io import open as kaldi_open
+        from pydrobert.speech.torch import PyTorchSTFTFrameComputer
 
+        self.PyTorchSTFT = PyTorchSTFTFrameComputer
         self.np, self.torch, self.cl, self.mk = np, torch, cl, mk
         self.FrameComputer, self.PostProcessor, self.PreProcessor = FrameComputer, PostProcessor, PreProcessor
         self.Dither, self.read_signal, self.kaldi_open = Dither, read_signal, kaldi_open
@@ -948,6 +950,17 @@ def torch_gen_case(ctx, I, idx):
         L, S = 50, 20
     else:
         comp, L, S = frame_params(I, comp_cfg)
+        if not si:
+            # the PyTorch port refuses (ValueError at construction) a bank with a filter that has no DFT bin at this frame
+            # length - short frames with narrow low filters; such a configuration is outside what the tool can run at all
+            for _ in range(8):
+                try:
+                    I.PyTorchSTFT.from_stft_frame_computer(comp)
+                    break
+                except ValueError:
+                    ctx.count("generator:torch-port-refuses-bank")
+                    comp_cfg = gen_computer(r, si=False)
+                    comp, L, S = frame_params(I, comp_cfg)
         if si:
             L = 4 * S
         elif S > L:
